@@ -700,7 +700,7 @@ func (m *Machine) makeLen(fr *frame, v Value, vt types.Type, what string) int {
 		if !isSigned(vt) && t.W == 64 && n < 0 {
 			m.rtPanic(fr, "makeslice-len-out-of-range")
 		}
-		if n < 0 || n > 1<<47 {
+		if n < 0 || n > 1<<48 {
 			m.rtPanic(fr, "makeslice-len-out-of-range")
 		}
 		if n > maxMake {
@@ -717,8 +717,8 @@ func (m *Machine) makeLen(fr *frame, v Value, vt types.Type, what string) int {
 			w = F.Zext(w, 64)
 		}
 	}
-	// out of range for every element size: negative, or above 2^47 elements
-	bad := F.Or(F.Slt(w, F.Const(64, 0)), F.Slt(F.Const(64, 1<<47), w))
+	// out of range for every element size: negative, or above the 2^48-byte address space
+	bad := F.Or(F.Slt(w, F.Const(64, 0)), F.Slt(F.Const(64, 1<<48), w))
 	if m.Decide(bad) {
 		m.rtPanic(fr, "makeslice-len-out-of-range")
 	}
